@@ -85,7 +85,7 @@ pub fn run_check(ctx: &Ctx) -> i32 {
     let sub = if def.dbg && !ctx.is_dbg() {
         match dbg_binary() {
             Some(bin) => {
-                let out = ctx.verif_dir.join("work").join(format!("{}-dbg-{}.json", ctx.id, std::process::id()));
+                let out = std::env::var("VERIF_WORK_DIR").map(PathBuf::from).unwrap_or_else(|_| ctx.verif_dir.join("work")).join(format!("{}-dbg-{}.json", ctx.id, std::process::id()));
                 let _ = std::fs::create_dir_all(out.parent().unwrap());
                 let child = std::process::Command::new(&bin)
                     .args(["subcheck", &ctx.id, ctx.tier.name(), out.to_str().unwrap()])
